@@ -333,7 +333,7 @@ def run_fsm(ctx, chk, tables, prop='C03', focus=None):
                 nxt, evs, care = ref_step(rstate, c, utf8)
                 if focus == 'osc' and rname not in (OC, OS, OE) and not (nxt in (OC, OS, OE)):
                     care_here = False
-                elif focus in ('modes', 'sgr'):
+                elif focus in ('modes', 'sgr', 'params'):
                     care_here = False
                 elif focus == 'charset' and not (rname == ECS or (isinstance(nxt, tuple) and nxt[0] == ECS) or c in '\x0e\x0f'):
                     # (SO / SI are followed in every state: inside a sequence they must not reach the screen either)
@@ -380,9 +380,9 @@ def run_fsm(ctx, chk, tables, prop='C03', focus=None):
         chk.floor('UTF-8 shift suppression checked per state', nneg, 10)
     if focus is None:
         data_path(F, chk, seen, grounds[0])
-    elif focus in ('modes', 'sgr'):
+    elif focus in ('modes', 'sgr', 'params'):
         data_path(F, chk, seen, grounds[0], only=focus)
-    chk.floor('automaton transitions compared', ntrans, 300 if focus is None else (0 if focus in ('modes', 'sgr') else 20))
+    chk.floor('automaton transitions compared', ntrans, 300 if focus is None else (0 if focus in ('modes', 'sgr', 'params') else 20))
     chk.cov['reference_states_reached'] = sorted({_sname(r) for r, s in seen})
     chk.cov['state_site_pairs'] = len(seen)
     F.pairs = seen
@@ -458,7 +458,7 @@ def data_path(F, chk, seen, ground, only_modes=False, only=None):
                                                (['1', ';', '1', ';', '5', '$', 'r'], 'a skipped `$` sequence'),
                                                (['4', ';', '7', 'H'], 'a complete sequence')))
     for es in esc_sites:
-        for (script, want, what) in ((mode_scripts + after_scripts) if only == 'modes' else (sgr_scripts + after_scripts) if only == 'sgr' else after_scripts + (
+        for (script, want, what) in ((mode_scripts + after_scripts) if only == 'modes' else (sgr_scripts + after_scripts) if only == 'sgr' else after_scripts if only == 'params' else after_scripts + (
                                      (['[', 'h'], ('csi_dispatch', 'h', (0,), False), 'fresh CSI: empty parameter is 0, not private'),
                                      (['[', '5', 'h'], ('csi_dispatch', 'h', (5,), False), 'one digit'),
                                      (['[', '1', '2', ';', '3', 'H'], ('csi_dispatch', 'H', (12, 3), False), 'decimal accumulation, two parameters'),
@@ -475,7 +475,7 @@ def data_path(F, chk, seen, ground, only_modes=False, only=None):
             n += 1
             chk.instance('R-FSM', name, 'CSI data witness: %s' % what, ok, detail='script ESC %s -> %s' % (''.join(script), got),
                          what='ESC %s must dispatch %s and return to ground, extracted %s' % (''.join(script), want, got))
-    chk.floor('CSI data-path clauses', n, 5 if only_modes else 10)
+    chk.floor('CSI data-path clauses', n, (4 if only == 'params' else 5) if only_modes else 10)
 
 
 def _sname(s):
@@ -609,12 +609,17 @@ def run(ctx, chk):
     feed_wrapper(ctx, chk, SPECIAL)
     # D4 R-CAP is decided with C01 (same obligations); repeat the parameter-push instances here
     param_fidelity(ctx, chk)
+    # both parser modes: what the byte front end hands to the recogniser is the input's characters
+    # (8-bit mode: byte b as the code point b, so that the C1 introducers / terminators 0x9b 0x9d 0x9c
+    # are recognised; UTF-8 mode: streaming decode) - the clauses of C02 / C11
+    from .rules_c02 import r_stream
+    r_stream(ctx, chk, 'C03')
     if ctx.tier == 'thorough' and ctx.test_prog is not None:
         sibling(ctx, chk, F)
     chk.trust('generator-rs send/yield_ contract (A-GEN)', 'string summaries (eq, contains, chars, parse)', 'rustc MIR + const evaluation')
 
 
-def param_fidelity(ctx, chk):
+def param_fidelity(ctx, chk, fsm=False, prop=None, finals=None):
     """R-CAP: the numbers typed in a control sequence reach the listener as typed - empty = 0, the
     parsed number itself capped at 9999 (not a narrowed copy), an unparsable run saturating.  Every
     property about an operation with a numeric parameter (counts, coordinates, selectors, mode numbers)
@@ -631,6 +636,13 @@ def param_fidelity(ctx, chk):
         chk.instance('R-CAP', short(f), 'push#%d:cap' % o, a['ok'], detail=a['detail'], span=a['span'],
                      what='CSI parameter: empty = 0, saturating at 9999: ' + a['detail'])
     chk.floor('CSI parameter pushes', len(agg), 1)
+    if fsm:
+        # .. and nothing of an abandoned sequence (its parameters, its digits, its private marker) is
+        # carried into the next one: witnesses through the extracted automaton
+        # .. and the dispatch rows of this property's own finals (which method, which parameter goes
+        # where, for 0..3 parameters, private or not)
+        tables = dispatch_tables(ctx, chk, prop or 'C03', only=set(finals) if finals else None, quiet=not finals)
+        run_fsm(ctx, chk, tables, prop=prop or 'C03', focus='params')
 
 
 def sibling(ctx, chk, F):
